@@ -465,6 +465,9 @@ def run(ctx) -> None:  # noqa: F811
              "unit the full slice sequence uses there")
     f = ctx.repo.method("abtem.potentials.iam", "CrystalPotential", "generate_slices")
     cfg = _CFG(f.node)
+    gens = {t.id for st in _walk(f.node) if isinstance(st, _ast.Assign) and isinstance(st.value, _ast.Call)
+            and (_cn(st.value) or "").split(".")[-1] in ("default_rng", "RandomState", "Generator")
+            for t in st.targets if isinstance(t, _ast.Name)}
     draws = []
     for n in cfg.nodes:
         if n.ast is None or n.kind not in ("stmt",):
@@ -472,7 +475,7 @@ def run(ctx) -> None:  # noqa: F811
         for c in _walk(n.ast):
             if isinstance(c, _ast.Call) and isinstance(c.func, _ast.Attribute) and c.func.attr in (
                     "integers", "choice", "randint", "random", "permutation", "shuffle", "normal", "uniform") and \
-                    isinstance(c.func.value, _ast.Name) and c.func.value.id in ("rng", "random_state", "generator"):
+                    isinstance(c.func.value, _ast.Name) and c.func.value.id in gens:
                 draws.append((n, c))
     ctx.require(len(draws) >= 1, "CrystalPotential.generate_slices: no draw from the seeded generator found")
     for n, c in draws:
